@@ -65,7 +65,8 @@ where
             long_cycles: false,
         };
         let mut inst = gen_instance(rng, B::SPEC, &gp);
-        inst.opts.queries = inst.opts.queries.clamp(2, 12);
+        // one proof shape in five has a single query (single-index openings everywhere)
+        inst.opts.queries = if shape % 5 == 3 { 1 } else { inst.opts.queries.clamp(2, 12) };
         inst.opts.grinding = (shape % 3) as u32 * 2;
         if !inst.opts.valid_for(&inst.spec) {
             continue;
